@@ -107,8 +107,8 @@ def handle (op : String) (j : Json) : Option Json :=
     let impl := getObj j "impl"
     let cls := getStr impl "cls"
     if cls != "ok" then
-      some (obj [("model", model), ("holds", Json.bool true), ("trivial", Json.bool true),
-                 ("tags", Json.arr #[Json.str ("cls:" ++ cls)])])
+      some (obj ([("model", model), ("holds", Json.bool true), ("trivial", Json.bool true),
+                 ("tags", Json.arr #[Json.str ("cls:" ++ cls)])] ++ linksFields j))
     else
       let ovs := (getArr j "ov").map fun o => (getB o "name", o)
       let members := (getArr impl "members").map getMemObs
@@ -143,6 +143,7 @@ def handle (op : String) (j : Json) : Option Json :=
                    ("extract_new", Json.arr (exNew.take 6 |>.map fun (k, n) => Json.arr #[Json.str k, jb n]).toArray),
                    ("compress_bad", Json.arr (compBad.map Json.str).toArray),
                    ("tags", Json.arr (tags.map Json.str).toArray)]
+      let base := base ++ linksFields j
       some (obj (if finding then base ++ [("finding", Json.str "dir-mtime-noncontiguous")] else base))
   | _ => none
 
